@@ -264,6 +264,9 @@ func c18Translate(via int, data []byte, array bool) (grl string, lib *ast.Knowle
 
 func runC18Case(c *Ctx, idx int) *CaseResult {
 	cr := &CaseResult{}
+	if t := idx - (len(c18Malformed) + len(c18LookAlikes) + tierN(2500, 80000)(c.Tier)); t >= 0 {
+		return runC18Set(c, t, cr)
+	}
 	if idx < len(c18Malformed) {
 		return runC18Malformed(c, idx, cr)
 	}
@@ -569,7 +572,7 @@ func init() {
 		ID: "C18", Level: "exploration",
 		Rule: "typed random operator trees over the 15 operators + set / call / obj / const, depth <=4 (quick) / <=5 (thorough), rendered as JSON with every mix of operand forms (plain string, bare number / boolean, obj / const wrappers, operator objects, n-ary flattening of left spines, one-operand not over operator objects), constants of every kind (strings with quotes, backslashes, control and non-ASCII characters; negative, fractional and large numbers), rule arrays and single rules, via ParseJSONRule(set) and via JSONResource; oracle = the GRL must build, carry name / description / salience, and evaluate (sink into a nil interface field + candidate flag) to the reference value of the tree with operands grouped exactly as nested; a table of malformed rules must be rejected by the translator-plus-builder pipeline through every entry point; non-trivial = distinct trees nesting a lower-precedence operator inside a higher one or carrying a string that needs escapes, plus each malformed kind; optional desc / salience omitted at random; malformed rules alone, as only element of a set, in front of and behind a well-formed rule; constants that print alike but differ in kind (\"7\" / 7, \"true\" / true) in otherwise identical rules",
 		Assume: []string{"a one-operand not is logical negation of an operator object (TestJsonNegation); one-operand forms of other operators and of not over obj / plain operands are in neither domain", "plain-string operands are raw GRL text: only atoms are rendered that way", "an integral JSON number denotes an integer"},
-		Cases:  func(t string) int { return tierN(2500, 80000)(t) + len(c18Malformed) + len(c18LookAlikes) },
+		Cases:  func(t string) int { return tierN(2500, 80000)(t) + len(c18Malformed) + len(c18LookAlikes) + len(c18Sets) },
 		Run:    runC18Case,
 		Known:  c18Known,
 	})
@@ -587,3 +590,66 @@ var c18LookAlikes = func() []*Expr {
 	}
 	return out
 }()
+
+// c18Sets: well-formed rule sets whose rule NAMES, descriptions and saliences are related in ways a
+// careless header translation trips over (names that are prefixes of one another in either order,
+// a name mentioned in an earlier description, many rules, negative and extreme saliences, non-ASCII
+// descriptions). Every rule must arrive with exactly its name, description and salience.
+type c18SetRule struct {
+	Name, Desc string
+	Sal        int64
+}
+
+var c18Sets = func() [][]c18SetRule {
+	var down, up []c18SetRule
+	for i := 12; i >= 1; i-- {
+		down = append(down, c18SetRule{fmt.Sprintf("R%d", i), fmt.Sprintf("rule number %d", i), int64(i)})
+		up = append([]c18SetRule{{fmt.Sprintf("R%d", i), "", int64(-i)}}, up...)
+	}
+	return [][]c18SetRule{
+		{{"SpeedUp", "first", 10}, {"Speed", "second", 5}},
+		{{"Speed", "first", 10}, {"SpeedUp", "second", 5}},
+		{{"A", "rule B follows, then rule C", 1}, {"B", "rule A came before", 2}, {"C", "", 3}},
+		down, up,
+		{{"Neg", "negative", -1}, {"Min", "smallest", -2147483648}, {"Max", "largest", 2147483647}, {"Zero", "zero", 0}, {"NegTen", "minus ten", -10}},
+		{{"Uml", "prüfen", 1}, {"Cjk", "漢字の説明", 2}, {"Emo", "ok 😀", 3}, {"Acc", "déjà vu", -4}},
+		{{"rule1", "name starts with the keyword text", 1}, {"ruler", "so does this one", 2}, {"R", "short", 3}, {"Rule_R", "contains the other", 4}},
+	}
+}()
+
+func runC18Set(c *Ctx, t int, cr *CaseResult) *CaseResult {
+	set := c18Sets[t]
+	var rules []interface{}
+	for _, ru := range set {
+		rules = append(rules, c18Rule(ru.Name, ru.Desc, ru.Sal, "F.A == 1", []interface{}{"F.B = 1"}))
+	}
+	data, _ := json.Marshal(rules)
+	for via := 0; via < 2; via++ {
+		grl, lib, terr, berr, pn := c18Translate(via, data, true)
+		cr.Evals++
+		detail := map[string]interface{}{"json": string(data), "grl": trunc(grl, 1500)}
+		if pn != nil || terr != nil || berr != nil {
+			cr.violate(fmt.Sprintf("a well-formed rule set of %d rules (%s, ...) is not translated and built: panic=%v translator=%v builder=%v", len(set), set[0].Name, pn, terr, berr), detail)
+			return cr
+		}
+		kb := lib.GetKnowledgeBase(kbName, kbVer)
+		for _, ru := range set {
+			re, ok := kb.RuleEntries[ru.Name]
+			if !ok {
+				cr.violate("rule "+ru.Name+" of the JSON rule set is missing from the knowledge base", detail)
+				return cr
+			}
+			if int64(re.Salience) != ru.Sal {
+				cr.violate(fmt.Sprintf("rule %s: salience %d, the JSON says %d", ru.Name, re.Salience, ru.Sal), detail)
+				return cr
+			}
+			if re.RuleDescription != ru.Desc {
+				cr.violate(fmt.Sprintf("rule %s: description %q, the JSON says %q", ru.Name, re.RuleDescription, ru.Desc), detail)
+				return cr
+			}
+		}
+	}
+	cr.inc("named_rule_sets")
+	cr.NonTrivial = append(cr.NonTrivial, fmt.Sprintf("set|%d", t))
+	return cr
+}
